@@ -124,7 +124,7 @@ def specStat (name : String) (lg : List Rat) (seglog2 : Rat) : Option StatOut :=
   match locationStat name with
   | some f => some (f lg)
   | none =>
-    match spreadStat name with
+    match specSpreadStat name with
     | some f => some (f (lg.map (· - seglog2)))
     | none => none
 
@@ -200,7 +200,9 @@ def handleStats (op : String) (inp : Json) (impl : Option Json) : R (Option Json
           for nm in loc ++ spread do
             let x ← implNum row nm
             let d : StatOut :=
-              match (if same then (o.stats.find? (·.1 == nm)).map (·.2) else none) with
+              -- the iterated biweight is expensive: reuse the model's value when it is the same function
+              -- of the same bins; every other statistic is recomputed from its definition
+              match (if same && nm == "bivar" then (o.stats.find? (·.1 == nm)).map (·.2) else none) with
               | some s => s
               | none => (specStat nm lg sg.log2).getD { val := .nan }
             let ok1 := matchVal tt x d.val
@@ -296,7 +298,8 @@ def handleStats (op : String) (inp : Json) (impl : Option Json) : R (Option Json
         let labs := ih.map (·.1)
         for ((b, _), q) in tq do
           let isHit := labs.contains (labelOf b)
-          if rabs (q - alpha) ≥ tolS && isHit != decide (q < alpha) then
+          -- with a single tested bin BH is the identity (n/rank = 1.0, exact in floats): q = alpha is decided exactly
+          if (rabs (q - alpha) ≥ tolS || tq.length == 1) && isHit != decide (q < alpha) then
             bad := "bintest_exactly_below_alpha" :: bad
         if labs.eraseDups.length != labs.length then bad := "bintest_exactly_below_alpha" :: bad
         pure (sClausesJ bad.reverse))
